@@ -223,6 +223,8 @@ TagTok(n, at, g) == [t |-> "open", n |-> n, g |-> g, attrs |-> at]
 \*   [a |-> "url", u]       href={ templ.URL(U) }: a URL attribute; U1 is an allowed URL, U2 a javascript: URL, which is
 \*                          replaced by the fixed failed-sanitization URL (what the sanitiser admits is C04's subject)
 \*   [a |-> "style", e]     style={ T }: a style attribute value (T1 a declaration string, T2 a map with one declaration)
+\*   [a |-> "cssclassx"]    class={ tinted("green") }: a css template with an expression-valued property (its class id
+\*                          is computed at render time from the css text, value included)
 \*   [a |-> "cssclass"]     class={ boxed() }: the class of a css template; its <style> element is written in front of
 \*                          the start tag, once per rendering (a "def" token, see Dedupe)
 \*   [a |-> "scriptcall", n] onclick={ greet("x") }: a call of a script template (n: the handler attribute); the <script> element defining the
@@ -255,8 +257,10 @@ DenAttrs(at, env) ==
                       [] a.a = "url"        -> [pairs |-> << [n |-> "href", v |-> IF a.u = "U2" THEN "UBAD" ELSE a.u] >>, evs |-> << a.u >>]
                       [] a.a = "style"      -> [pairs |-> << [n |-> "style", v |-> a.e] >>, evs |-> << a.e >>]
                       [] a.a = "cssclass"   -> [pairs |-> << [n |-> "class", v |-> "CSSB"] >>, evs |-> <<>>]
+                      [] a.a = "cssclassx"  -> [pairs |-> << [n |-> "class", v |-> "CSST"] >>, evs |-> <<>>]
                       [] a.a = "scriptcall" -> [pairs |-> << [n |-> a.n, v |-> "SCRG"] >>, evs |-> <<>>]
              defs == CASE a.a = "cssclass"   -> << "cssB" >>
+                       [] a.a = "cssclassx"  -> << "cssT" >>
                        [] a.a = "scriptcall" -> << "scriptG" >>
                        \* as coded: the definitions needed by EITHER arm of a conditional attribute are written in
                        \* front of the start tag whatever the condition is (the handler attribute itself is
